@@ -42,7 +42,7 @@ structure Leaf (I : State → Prop) : Prop extends LeafW I where
   setLoopStop : ∀ b, Pres I (setLoopStop b)
   clearDone : Pres I clearDone
   unregister : ∀ u, Pres I (unregisterWatcher u)
-  registerNew : ∀ w, Pres I (registerNew w)
+  registerNew : ∀ w, w.pids = [] → Pres I (registerNew w)    -- a new watcher object lists no process
   fireSleeper : ∀ sl, Pres I (fireSleeper sl)
   enqueueResume : ∀ k v w, Pres I (enqueue (.resume k v w))
   enqueueCallback : ∀ n, Pres I (enqueue (.callback n))
@@ -66,7 +66,7 @@ attribute [aesop safe apply (rule_sets := [Pres])] Pres.bind Pres.ite Pres.for_i
 attribute [aesop safe apply (rule_sets := [Pres])] LeafK.emit Leaf.setStatus Leaf.trySetNp Leaf.spawnAdopt LeafW.popPid
   LeafW.bumpHook Leaf.setWOpt LeafW.setObjStopping LeafW.setRc LeafW.markBlocked LeafW.emitEv Leaf.freshId Leaf.pushFrame
   Leaf.removeFrame Leaf.setFrameK Leaf.armFrame Leaf.pushSleeper Leaf.armTop Leaf.setClosed Leaf.setStopping
-  Leaf.setRestarting Leaf.setLoopStop Leaf.clearDone Leaf.unregister Leaf.registerNew Leaf.fireSleeper
+  Leaf.setRestarting Leaf.setLoopStop Leaf.clearDone Leaf.unregister Leaf.fireSleeper
   Leaf.enqueueResume Leaf.enqueueCallback
 attribute [aesop safe apply (rule_sets := [Pres])] SpecCore.deliverTop SpecCore.syncSetOpt SpecCore.syncAdd
 
